@@ -1512,6 +1512,9 @@ def _encode_host(host: str, validate_host: bool) -> str:
         else:
             # These checks should not happen in the
             # LRU to keep the cache size small
+            if validate_host and (invalid := NOT_REG_NAME.search(zone.lower())):
+                value, pos = invalid.group(), invalid.start()
+                raise ValueError(f"Zone {zone!r} cannot contain {value!r} (at {pos})")
             host = ip.compressed
             if ip.version == 6:
                 return f"[{host}%{zone}]" if sep else f"[{host}]"
